@@ -17,7 +17,7 @@ import sys
 from cryptography.exceptions import InvalidTag
 from cryptography.hazmat.primitives.ciphers.aead import AESGCM
 
-from . import cborx, core, envgen, project, seqwalk, toolrun
+from . import cborx, core, envgen, project, seqwalk, tlc, toolrun
 
 HASHES = {"sha-256": -16, "shake128": -18, "sha-384": -43, "sha-512": -44, "shake256": -45}
 KIDS = [0, 1, 23, 24, 255, 256, 65535, 65536, 0x4000AA00, 2**31 - 1, 2**31, 2**32 - 1]
@@ -123,14 +123,19 @@ def run_encrypt(ctx, tr, d, key: bytes, keyname, size, seed, kid, halg, via, k):
                              output_dir=out)
         except Exception as e:
             ctx.observe(f"encrypt-and-generate raised {type(e).__name__}")
-    t = tr.terms
-    ptid = t.id(pt)
-
     def rd(name):
         p = out / name
         return p.read_bytes() if p.exists() else b""
 
-    info_b, content, dg, sz = rd("suit_encryption_info.bin"), rd("encrypted_content.bin"), rd("plain_text_digest.bin"), rd("plain_text_size.txt")
+    emit_enc(ctx, tr, key, pt, kid, halg, rd("suit_encryption_info.bin"), rd("encrypted_content.bin"), rd("plain_text_digest.bin"),
+             rd("plain_text_size.txt"), {"kind": "enc", "size": size, "seed": seed, "kid": kid, "hash": halg, "via": via}, k, out)
+    ctx.nontriv(("enc", size, hex(kid), halg, via))
+
+
+def emit_enc(ctx, tr, key, pt, kid, halg, info_b, content, dg, sz, scn, k, out=None, begin=True):
+    """Project the four artifacts of one encrypt-and-generate call into an Enc event (key = the key the call NAMED)."""
+    t = tr.terms
+    ptid = t.id(pt)
     info = project_info(info_b, t)
     try:
         size_found, sizeok = int(sz.decode()), sz.decode().strip().isdecimal()
@@ -139,7 +144,7 @@ def run_encrypt(ctx, tr, d, key: bytes, keyname, size, seed, kid, halg, via, k):
     # create with the info as raw parameter / as file
     rawid = -1
     try:
-        desc = raw_param_id(info_b, t, k)
+        desc = raw_param_id(info_b, t, k if out is not None else 2 * k + 1)
         p19 = desc["SUIT_Envelope_Tagged"]["suit-manifest"]["suit-install"][0]["suit-directive-override-parameters"]["suit-parameter-encryption-info"]
         if "file" in p19:
             p19["file"] = str(out / "suit_encryption_info.bin")
@@ -150,12 +155,60 @@ def run_encrypt(ctx, tr, d, key: bytes, keyname, size, seed, kid, halg, via, k):
                 rawid = t.id(arg.get(19).raw)
     except Exception:
         rawid = -1
-    tr.begin({"kind": "enc", "size": size, "seed": seed, "kid": kid, "hash": halg, "via": via})
+    if begin:
+        tr.begin(scn)
     pub = {k2: v for k2, v in info.items() if k2 not in ("ivb", "prot")}
-    tr.ev("Enc", pt=ptid, ptlen=size, kid=hex(kid), info=pub, dec=decrypt(key, info, content, t),
+    tr.ev("Enc", pt=ptid, ptlen=len(pt), kid=hex(kid), info=pub, dec=decrypt(key, info, content, t),
           dg=t.pre(HASHES[halg], dg), size=size_found, sizeok=sizeok, raw=rawid)
     ctx.count("evaluations")
-    ctx.nontriv(("enc", size, hex(kid), halg, via))
+
+
+def run_session(ctx, tr, d, stores, hist, k, mod=None):
+    """Use B: one TLC session history replayed into real Encryptor objects.  hist: [{"op": "new"} | {"op": "enc", "ctx", "name"}];
+    a key is named by (context directory, key name); every call's artifacts are judged under the key THAT CALL named."""
+    es, kms = scripts()
+    core.setup_repo_path()
+    import importlib.util
+
+    from suit_generator.suit_encrypt_script_base import SuitDigestAlgorithms, SuitKWAlgorithms
+    if mod is None:
+        spec = importlib.util.spec_from_file_location("verif_enc_script_sess", es)
+        mod = importlib.util.module_from_spec(spec)
+        spec.loader.exec_module(mod)
+    obj = None
+    scn = {"kind": "session", "hist": hist, "k": k}
+    tr.begin(scn)
+    for n, op in enumerate(hist):
+        if op["op"] == "new":
+            obj = None
+            continue
+        if obj is None:
+            obj = mod.suit_encryptor_factory()
+        halg = list(HASHES)[(k + n) % 5]
+        kid = KIDS[(k + 3 * n) % len(KIDS)]
+        pt = envgen.blob([17, 0, 33, 4096, 1][(k + n) % 5], 1000 * k + n)
+        try:
+            payload, tag, info_b, dg, ln = obj.encrypt_and_generate(pt, op["name"], kid, str(d / op["ctx"]), SuitDigestAlgorithms(halg),
+                                                                    SuitKWAlgorithms("direct"), kms)
+            sz = str(ln).encode()
+        except Exception as e:
+            ctx.observe(f"session encrypt_and_generate raised {type(e).__name__}")
+            payload, tag, info_b, dg, sz = b"", b"", b"", b"", b""
+        emit_enc(ctx, tr, stores[op["ctx"]][op["name"]], pt, kid, halg, info_b, tag + payload, dg, sz, scn, 7 * k + n, begin=False)
+    ctx.nontriv(("session", json.dumps(hist)))
+
+
+def setup_stores(d):
+    """Two KMS contexts (keys directories) holding the SAME key names with DIFFERENT key bytes."""
+    stores = {}
+    for c in ("c1", "c2"):
+        (d / c).mkdir(parents=True, exist_ok=True)
+        stores[c] = {}
+        for name in ("a", "b"):
+            kb = os.urandom(32)
+            (d / c / f"{name}.bin").write_bytes(kb)
+            stores[c][name] = kb
+    return stores
 
 
 def run_geninfo(ctx, tr, d, size, seed, kid, via, k):
@@ -217,9 +270,11 @@ def setup_keys(d):
 def run(ctx: core.Check):
     ctx.cov["rule"] = ("encrypt-and-generate: plaintext sizes {0, 1, 15, 16, 17, 31, 32, 33, 4096, 65537} x key ids at CBOR width "
                        "boundaries x five digest algorithms x library|CLI; generate-info: blob sizes x key ids x empty/non-empty "
-                       "key file. Distinct & non-trivial = distinct (sub-command, size, key id, algorithm, via).")
+                       "key file; session histories from TLC (Encrypt_MC: new object | encrypt naming (context, key name), <= 3 encryptions) "
+                       "replayed into real Encryptor objects. Distinct & non-trivial = distinct (sub-command, size, key id, algorithm, "
+                       "via) and distinct session histories.")
     ctx.note("Use A: Encrypt_MC")
-    ctx.mc("Encrypt_MC", "Encrypt_MC.cfg", required_actions=("Encrypt",))
+    ctx.mc("Encrypt_MC", "Encrypt_MC.cfg", required_actions=("Encrypt", "NewObject"))
     d = ctx.tmp("c06")
     keys = setup_keys(d)
     tr = toolrun.Trace()
@@ -244,6 +299,20 @@ def run(ctx: core.Check):
             k += 1
             run_geninfo(ctx, tr, d, size, k, kid, "cli" if k % 10 == 0 else "lib", k)
     ctx.sample({"scenario": tr.scn[tr.tid], "event": tr.events[-1]})
+    # Use B: session histories from TLC (object reuse x context x key name)
+    g = tlc.run_tlc("Encrypt_MC", "Encrypt_Gen.cfg", workers=1)
+    tlc.require_ok(g, "Encrypt_Gen")
+    hists = [json.loads(x) for x in sorted({json.dumps(h) for h in g.tagged("SCN")})]
+    ctx.cov["tlc_runs"].append({"module": "Encrypt_MC", "cfg": "Encrypt_Gen.cfg", "use": "B:scenario-generation", "scenarios": len(hists)})
+    if ctx.quick:
+        ctx.rng.shuffle(hists)
+        hists = hists[:120]
+    ctx.note(f"Use B/C: {len(hists)} TLC session histories -> real Encryptor objects")
+    stores = setup_stores(d)
+    for h in hists:
+        k += 1
+        run_session(ctx, tr, d, stores, h, k)
+    ctx.sample({"scenario": tr.scn[tr.tid], "events": tr.of(tr.tid)})
     toolrun.report(ctx, tr, module="Encrypt_Trace", label="encrypt", keyfn=lambda b, s: f"{b['clause']}:{json.dumps(s)}")
     ctx.assumptions += ["AES-GCM decryption by cryptography (same library the tool encrypts with; a defect common to both "
                         "directions inside it is invisible)", "Enc_structure rebuilt from the published protected header",
@@ -255,7 +324,9 @@ def replay(ctx, rec):
     d = ctx.tmp("c06r")
     keys = setup_keys(d)
     tr = toolrun.Trace()
-    if scn["kind"] == "enc":
+    if scn["kind"] == "session":
+        run_session(ctx, tr, d, setup_stores(d), scn["hist"], scn["k"])
+    elif scn["kind"] == "enc":
         run_encrypt(ctx, tr, d, keys["fwenc"], "fwenc", scn["size"], scn["seed"], scn["kid"], scn["hash"], scn["via"], 1)
     else:
         run_geninfo(ctx, tr, d, scn["size"], scn["seed"], scn["kid"], scn["via"], 1)
